@@ -125,7 +125,7 @@ func c08Observe(b *hx.Built, c c08Call, order int, kb *ast.KnowledgeBase) string
 	if tr.Err != nil {
 		errs = tr.Err.Error()
 	}
-	return fmt.Sprintf("events=%s err=%s panic=%v final=%s", strings.Join(tr.Events, " "), errs, tr.Panic, tr.FinalDump)
+	return fmt.Sprintf("events=%s err=%s panic=%v final=%s", hx.Evs(tr.Events), errs, tr.Panic, tr.FinalDump)
 }
 
 func C08(rep *ev.Reporter, tier string) {
@@ -196,6 +196,9 @@ func C08(rep *ev.Reporter, tier string) {
 					removed = append(removed, rm)
 					continue
 				}
+				if c.cancel > 0 && !hx.OrderLive() {
+					continue // which rule meets the flipping poll depends on the (then uncontrolled) rule order
+				}
 				obsUsed := c08Observe(b, c, h.order, kb)
 				fresh, err := b.Instance()
 				if err != nil {
@@ -241,7 +244,11 @@ func C08(rep *ev.Reporter, tier string) {
 	rep.Coverage["transitions"] = nCalls / 2
 	rep.Coverage["traces_validated_against_impl"] = nCalls
 	rep.Coverage["distinct_nontrivial"] = nontrivial
-	rep.Coverage["order_controlled"] = hx.OrderControlled
+	rep.Coverage["order_controlled"] = hx.OrderLive()
+	if !hx.OrderLive() {
+		rep.Exhaustive = false
+		rep.Coverage["order_note"] = "the rule-order hook is not live on this tree: rule orders were NOT enumerated (each run took whatever order the Go runtime chose)"
+	}
 	if bud.Hit() {
 		rep.Exhaustive = false
 		rep.Coverage["caps_hit"] = "time budget"
